@@ -890,8 +890,10 @@ func (dc *driverContextContextual) transition(driver stateTableDriver, entry tab
 		hasRep                  bool
 		markIndex, currentIndex = entry.AsMorxContextual()
 	)
-	if markIndex != 0xFFFF {
-		lookup := dc.table.Substitutions[markIndex]
+	// invalid fonts may have out of range or NULL substitution tables
+	substitutions := dc.table.Substitutions
+	if markIndex != 0xFFFF && int(markIndex) < len(substitutions) && substitutions[markIndex] != nil && dc.mark < len(buffer.Info) {
+		lookup := substitutions[markIndex]
 		replacement, hasRep = lookup.Class(gID(buffer.Info[dc.mark].Glyph))
 	}
 	if hasRep {
@@ -905,8 +907,8 @@ func (dc *driverContextContextual) transition(driver stateTableDriver, entry tab
 
 	hasRep = false
 	idx := min(buffer.idx, len(buffer.Info)-1)
-	if currentIndex != 0xFFFF {
-		lookup := dc.table.Substitutions[currentIndex]
+	if currentIndex != 0xFFFF && int(currentIndex) < len(substitutions) && substitutions[currentIndex] != nil {
+		lookup := substitutions[currentIndex]
 		replacement, hasRep = lookup.Class(gID(buffer.Info[idx].Glyph))
 	}
 
